@@ -104,7 +104,10 @@ Definition c03_core_ops : list op :=
    OProbe (LArch 1) KEnt TAny (RRaw 3%N 2%N); OProbe (LArch 0) KEnt TAny (RRaw 3%N 2%N); OProbe (LArch 1) KEnt TAny (RRaw 4294967043%N 7%N);
    ODestroy LWorld KEnt TAny (RRaw 3%N 1%N); ODestroy LWorld KEnt TAny (RRaw 3%N 2%N); ODestroy LWorld KEnt TAny (RRaw 3%N 2%N);
    ODestroy LWorld KEnt TAny (RRaw 9%N 2%N); ODestroy LWorld KEnt TAny (RRaw 3%N 0%N); OProbe LWorld KEnt TAny (RIssued 2); OLen 1;
-   OCreate 1 9%N; ODestroy (LArch 0) KEnt TAny (RRaw 3%N 3%N); ODestroy (LArch 1) KEnt TAny (RRaw 3%N 3%N); ODestroy (LArch 1) KEnt TAny (RRaw 3%N 3%N); OLen 1].
+   OCreate 1 9%N; ODestroy (LArch 0) KEnt TAny (RRaw 3%N 3%N); ODestroy (LArch 1) KEnt TAny (RRaw 3%N 3%N); ODestroy (LArch 1) KEnt TAny (RRaw 3%N 3%N); OLen 1;
+   OCreate 1 11%N; OToDirect LWorld KEnt TAny (RRaw 3%N 4%N); OToDirect LWorld KEnt TAny (RRaw 3%N 3%N); OToDirect LWorld KEnt TAny (RRaw 7%N 4%N);
+   OToDirect (LArch 1) KEnt TAny (RRaw 3%N 4%N); OToDirect (LArch 0) KEnt TAny (RRaw 3%N 4%N); OToDirect LWorld KEnt TAny (RRaw 3%N 0%N);
+   OToDirect LWorld KEnt TAny (RRaw 4294967043%N 4%N)].
 Example C03_core_language_instance :
   forallb (l1_op c03_core_decl) c03_core_ops = true /\
   spec_check (Config false false true) c03_core_decl [] (ONew [1; 1] :: c03_core_ops)
